@@ -418,7 +418,8 @@ func rootVariant(signer name, variant string) string {
 // when provenInsecureDelegation succeeds: its own `<cut> DS` lookup (answered here
 // from the CURRENT record set next to the zone's SOA, signed per dsvariant:
 // good | nosig | badsig | none = lookup fails) must prove "delegation, no DS" for
-// the first cut below the zone on the way to the name.
+// the first cut below the zone on the way to the name. dsvariants dsok / dsmixed /
+// dsunsupd / dsunsupa answer the lookup POSITIVELY with a signed DS RRset instead.
 
 func runAuthorityUnsigned(signer, q name, t uint16, nx bool, dsv string, denial []dns.RR) (out authOut, ok bool) {
 	zone := signer.fold().pres()
@@ -430,6 +431,40 @@ func runAuthorityUnsigned(signer, q name, t uint16, nx bool, dsv string, denial 
 				Ns: "ns1." + zone, Mbox: "hostmaster." + zone, Serial: 1, Refresh: 3600, Retry: 600, Expire: 86400, Minttl: 300}
 			if zone == "." {
 				soa.Ns, soa.Mbox = "ns1.", "hostmaster."
+			}
+			if strings.HasPrefix(dsv, "ds") {
+				// a POSITIVE answer: a DS RRset for the asked name, signed by the zone key (the asked name
+				// is the cut candidate, in the zone). dsok: a DS this validator supports; dsunsupd: an
+				// unknown digest type; dsunsupa: a DNSKEY algorithm it cannot verify; dsmixed: both kinds
+				owner := req.Question[0].Name
+				mk := func(alg, digest uint8) dns.RR {
+					return &dns.DS{Hdr: dns.RR_Header{Name: owner, Rrtype: dns.TypeDS, Class: dns.ClassINET, Ttl: 300},
+						KeyTag: 4711, Algorithm: alg, DigestType: digest, Digest: strings.Repeat("ab", 32)}
+				}
+				var set []dns.RR
+				switch dsv {
+				case "dsok":
+					set = []dns.RR{mk(dns.ECDSAP256SHA256, dns.SHA256)}
+				case "dsunsupd":
+					set = []dns.RR{mk(dns.ECDSAP256SHA256, 250)}
+				case "dsunsupa":
+					set = []dns.RR{mk(dns.RSAMD5, dns.SHA256)}
+				default: // dsmixed
+					set = []dns.RR{mk(dns.ECDSAP256SHA256, 250), mk(dns.ED25519, dns.SHA384)}
+				}
+				m := new(dns.Msg)
+				m.SetReply(req)
+				m.Authoritative = true
+				if !dnsutil.NameInZone(strings.ToLower(owner), strings.ToLower(zone)) {
+					return m // not this zone's name: nothing the zone key signs
+				}
+				sig, err := authSign(env.key, set, zone)
+				if err != nil {
+					ok = false
+					return nil
+				}
+				m.Answer = append(set, sig)
+				return m
 			}
 			ns, sigs, sok := signSection(env, zone, soa, denial, dsv)
 			if !sok {
@@ -557,6 +592,12 @@ func execAuthUnsigned(f []string, nsec3 bool) vlib.Res {
 	// what the delegation validator says, called directly on the same filtered records
 	cut, below := insecureCut(signer, q, t)
 	proven := false
+	switch {
+	case below && (dsv == "dsunsupd" || dsv == "dsunsupa"):
+		proven = true // RFC 6840 5.2: a validly signed DS RRset with no supported record = insecure delegation
+	case strings.HasPrefix(dsv, "ds"):
+		proven = false // a supported DS: the child is SECURE, its unsigned answer is not excused
+	}
 	if below && dsv == "good" && !foreignClass(denial, signer) {
 		set := dnsutil.FilterRRsToZone(denial, signer.fold().pres())
 		if len(set) > 0 {
@@ -572,7 +613,7 @@ func execAuthUnsigned(f []string, nsec3 bool) vlib.Res {
 		res.Oracle = "FAIL sig=auth/unsigned-denial-accepted-without-insecure-delegation ds=" + dsv
 	case out.err != nil && proven:
 		res.Oracle = "FAIL sig=auth/insecure-delegation-refused err=" + strings.ReplaceAll(out.err.Error(), " ", "_")
-	case out.err == nil && !nsec3 && judged(signer):
+	case out.err == nil && !nsec3 && judged(signer) && !strings.HasPrefix(dsv, "ds"):
 		// the zone itself: the cut must be a delegation point without DS
 		if nd := curZone.find(cut); nd == nil || !nd.isDeleg() || nd.types[tDS] {
 			res.Oracle = "FAIL sig=auth/unsigned-denial-accepted-no-such-insecure-delegation"
